@@ -34,9 +34,19 @@ TrStep ==
        ELSE /\ Clause("machinery.session.enabled", FALSE)
             /\ UNCHANGED hs
     /\ UNCHANGED <<slast, shist>>
+(* just before a handle is dropped, and for every handle alive at the end of the session: its full public
+   observation (context, lattice order, links, labels, joins, traversals ...) against that of a context built
+   from scratch from the table the model says the handle holds; observing computes the lattice *)
+TrObs ==
+    /\ IsEv("s.obs")
+    /\ Clause("machinery.session.obs.live", e.h \in 1..H /\ Live(hs, e.h))
+    /\ Clause("C11.session.obs.outcome", e.out = "ok")
+    /\ Clause("C11.session.obs.indistinguishable", e.out # "ok" \/ e.obs = e.fresh)
+    /\ hs' = IF e.h \in 1..H /\ Live(hs, e.h) THEN [hs EXCEPT ![e.h].lat = TRUE] ELSE hs
+    /\ UNCHANGED <<slast, shist>>
 TrDone == l = Len(Log) + 1 /\ l' = l + 1 /\ PrintT(<<"DONE", Len(Log)>>) /\ UNCHANGED <<hs, slast, shist>>
 
 TraceInit == SInit /\ l = 1
-TraceNext == TrReset \/ TrStep \/ TrDone
+TraceNext == TrReset \/ TrStep \/ TrObs \/ TrDone
 TraceSpec == TraceInit /\ [][TraceNext]_tvars
 =============================================================================
